@@ -756,3 +756,21 @@ Example reused_example :
   let dirty := mkCtx [(bs "old", VInt 3, InsStatic)] [] (VInt 9) true (Some EBreak) 2 [5%Z] 4 [] 0 in
   core_eq (ctx_reset dirty) (fresh_like dirty) /\ bufBl (ctx_reset dirty) = true /\ bufBl (fresh_like dirty) = false.
 Proof. repeat split. Qed.
+
+(* C11, the link to the allocation model: two repetitions Reset - bind - Decode
+   of one program over the same objects make the same demands on the context's
+   buffers (literal slots, counter cells), whatever the context went through
+   before each of them; so the second repetition finds every buffer already
+   grown (AllocProofs: a repeated demand trace allocates nothing) *)
+Corollary repetitions_make_the_same_demands U fuel t c1 c2 binds :
+  store c1 = store c2 -> trace c1 = trace c2 -> ncalls c1 = ncalls c2 ->
+  let r1 := decode U fuel t (bind_all (ctx_reset c1) binds) in
+  let r2 := decode U fuel t (bind_all (ctx_reset c2) binds) in
+  lenBB (fst r1) = lenBB (fst r2) /\ bufLC (fst r1) = bufLC (fst r2) /\ snd r1 = snd r2.
+Proof.
+  intros Hs Ht Hn. cbv zeta.
+  assert (C : core_eq (ctx_reset c1) (ctx_reset c2)).
+  { unfold ctx_reset. repeat split; simpl; assumption. }
+  destruct (decode_core U fuel t _ _ (bind_all_core binds _ _ C)) as [(A&B&Cc&D&E&F&G&H) S].
+  repeat split; assumption.
+Qed.
